@@ -27,6 +27,8 @@ func vfLoopback(port uint16) netip.AddrPort {
 }
 
 type vfNATWorld struct {
+	socks0 int // sockets / goroutines of the started, idle relay
+	gos0   int
 	relay  *UDPNATRelay
 	col    stats.Collector
 	target int // peer socket that plays the tunnel target
@@ -48,6 +50,8 @@ func vfNewNATWorld(natTimeout time.Duration) *vfNATWorld {
 	w.relay = NewUDPNATRelay("s", 0, 1500, 0, recvSize, recvSize, []udpRelayServerConn{lnc}, server, w.col, r, zap.NewNop())
 	vfAssert(w.relay.Start(context.Background()) == nil, "relay starts")
 	w.port = uint16(w.relay.listeners[0].serverConn.LocalAddr().(*net.UDPAddr).Port)
+	vfQuiesce()
+	w.socks0, w.gos0 = vfNetOpen(), vfLiveGoroutines()
 	return w
 }
 
@@ -76,7 +80,7 @@ func vfC12_Lifecycle() {
 	vfAssume(x >= 0 && x < 8)
 	vfAssert(buf[x] == payload[x], "payload intact")
 	vfQuiesce()
-	vfAssert(vfNetOpen() == 2 && w.tableLen() == 1, "one session, one NAT socket beside the listener")
+	vfAssert(vfNetOpen() == w.socks0+1 && w.tableLen() == 1, "one session, one NAT socket beside the listener")
 
 	// 2. the reply returns to the client
 	reply := vfBytes("reply", 5)
@@ -88,8 +92,8 @@ func vfC12_Lifecycle() {
 	// 3. idle past the NAT timeout: the session is torn down and its socket released
 	vfAdvance(vfNatTimeout + time.Millisecond)
 	vfAssert(w.tableLen() == 0, "an idle session is removed from the table")
-	vfAssert(vfNetOpen() == 1, "an idle session's socket is released")
-	vfAssert(vfLiveGoroutines() == 1, "an idle session's goroutines have ended (only the receive loop remains)")
+	vfAssert(vfNetOpen() == w.socks0, "an idle session's socket is released")
+	vfAssert(vfLiveGoroutines() == w.gos0, "an idle session's goroutines have ended (only what the idle relay runs remains)")
 
 	// 4. a later datagram from the same client transparently starts a new working session
 	vfNetSend(client, w.port, payload)
@@ -160,7 +164,7 @@ func vfC12_TimeoutRace() {
 	} else {
 		// quiesce: after another idle period everything but the listener is gone
 		vfAdvance(vfNatTimeout + time.Millisecond)
-		vfAssert(w.tableLen() == 0 && vfNetOpen() == 1 && vfLiveGoroutines() == 1, "after the idle period only the listener remains")
+		vfAssert(w.tableLen() == 0 && vfNetOpen() == w.socks0 && vfLiveGoroutines() == w.gos0, "after the idle period only the listener remains")
 		vfAssert(w.relay.Stop() == nil, "stop")
 		vfQuiesce()
 		vfAssert(vfNetOpen() == 0 && vfLiveGoroutines() == 0, "stop releases everything")
@@ -186,7 +190,7 @@ func vfC12_EvictRace() {
 	vfNetSend(client, w.port, []byte{7, 7, 7, 7})
 	vfQuiesce()
 	vfAdvance(vfNatTimeout + time.Millisecond)
-	vfAssert(w.tableLen() == 0 && vfNetOpen() == 1 && vfLiveGoroutines() == 1, "after the idle period only the listener remains")
+	vfAssert(w.tableLen() == 0 && vfNetOpen() == w.socks0 && vfLiveGoroutines() == w.gos0, "after the idle period only the listener remains")
 	vfAssert(w.relay.Stop() == nil, "stop")
 	vfQuiesce()
 	vfAssert(vfNetOpen() == 0 && vfLiveGoroutines() == 0, "stop releases everything")
@@ -214,6 +218,8 @@ func vfC11_NATSessions() {
 	relay := NewUDPNATRelay("s", 0, 1500, head.Front, recvSize, head.Front+recvSize+head.Rear, []udpRelayServerConn{lnc}, server, stats.NewServerCollector(), r, zap.NewNop())
 	vfAssert(relay.Start(context.Background()) == nil, "relay starts")
 	port := uint16(relay.listeners[0].serverConn.LocalAddr().(*net.UDPAddr).Port)
+	vfQuiesce()
+	socks0 := vfNetOpen()
 	vfSchedule(vfCase("preempt"))
 
 	// SOCKS5 UDP request: RSV RSV FRAG ATYP=1 addr port payload
@@ -238,7 +244,7 @@ func vfC11_NATSessions() {
 	relay.mu.Lock()
 	sessions := len(relay.table)
 	relay.mu.Unlock()
-	vfAssert(sessions == 2 && vfNetOpen() == 3, "the unparsable datagram created no session and no socket")
+	vfAssert(sessions == 2 && vfNetOpen() == socks0+2, "the unparsable datagram created no session and no socket")
 
 	// replies
 	r1, r2 := vfBytes("r1", 4), vfBytes("r2", 4)
